@@ -47,7 +47,8 @@ ApiView(op, v) ==
       [] op = "ObjLen" -> (IF v[1] = "n" THEN v ELSE Unrep)
       [] OTHER -> v
 ResAgree(op, apires, luares) ==
-    IF op \in {"NextWalk"} THEN PairsEq(apires, luares)
+    IF op = "ForEachWalk" THEN TRUE        \* ForEach and pairs may differ in order: each is judged as a traversal
+    ELSE IF op = "NextWalk" THEN PairsEq(apires, luares)
     ELSE /\ Len(apires) = Len(luares)
          /\ \A i \in 1..Len(luares) : LET w == ApiView(op, luares[i]) IN w = Unrep \/ TokEq(apires[i], w)
 
@@ -143,7 +144,15 @@ Known(v) == v[1] \in {"nil", "b", "n", "s", "t", "u", "bi"}
 
 SpecOutcome(R) ==
     LET W == Worlds[R.w]  st == St0(R)  a == R.a  G == <<"t", W.G>> IN
-    IF \E i \in 1..Len(a) : ~Known(a[i]) THEN Out("unmod", <<>>, Nil, st.heap)
+    IF R.op \in {"Next", "NextWalk", "ForEachWalk"}
+    THEN (* traversal: decided on tokens only (keys may be non-integral numbers).  next(t, k) with a k
+            that is not a field of t is an error ("invalid key to 'next'").  A positive integer k is
+            not judged: a field cleared during a traversal stays a valid key, and an array slot that
+            was cleared and trimmed cannot be told from one that never existed *)
+         (IF R.op # "Next" \/ a[2][1] = "nil" \/ KvIdx(st.heap[a[1][2]].kv, a[2]) # {} THEN Out("val", <<>>, Nil, st.heap)
+          ELSE IF a[2][1] = "n" /\ a[2][2] >= 1 THEN Out("unmod", <<>>, Nil, st.heap)
+          ELSE Out("err", <<>>, Nil, st.heap))
+    ELSE IF \E i \in 1..Len(a) : ~Known(a[i]) THEN Out("unmod", <<>>, Nil, st.heap)
     ELSE IF R.tmt # <<>> /\ R.op # "GetMetatable" THEN Out("unmod", <<>>, Nil, st.heap)   \* LuaSem knows no type metatables
     ELSE CASE R.op \in {"GetTable", "GetField", "GetFieldT"} -> Eval1(W, DoIndex(st, a[1], a[2], NoPos, 100))
            [] R.op \in {"SetTable", "SetField", "SetFieldT"} -> Eval1(W, DoNewIndex(st, a[1], a[2], a[3], NoPos, 100))
@@ -184,7 +193,7 @@ PostOK(R, O) ==
 SpecFail(R, O) ==
     IF R.lua.err # (O.k = "err") THEN "err"
     ELSE IF ~CallsEq(R.lua.calls, O.calls) THEN "calls"
-    ELSE IF R.op \in {"Next", "NextWalk"} THEN (IF NextOK(R, R.lua.res) THEN "" ELSE "result")
+    ELSE IF R.op \in {"Next", "NextWalk", "ForEachWalk"} THEN (IF O.k = "err" \/ (NextOK(R, R.lua.res) /\ NextOK(R, R.api.res)) THEN "" ELSE "result")
     ELSE IF O.k = "val" /\ R.op \in {"SetTable", "SetField", "SetFieldT", "SetGlobal"} /\ Len(R.lua.res) # 0 THEN "result"
     ELSE IF O.k = "val" /\ R.op = "ProtectedSet"
             /\ ~(Len(R.lua.res) = 2 /\ TokEq(R.lua.res[1], O.v[1]) /\ TokEq(R.lua.res[2], O.v[2])) THEN "result"
